@@ -44,6 +44,10 @@ func (app *App) mount(prefix string, subApp *App) Router {
 	if prefix == "" {
 		prefix = "/"
 	}
+	// the routes are registered with a leading slash, so are the keys of the app list
+	if prefix[0] != '/' {
+		prefix = "/" + prefix
+	}
 
 	// Support for configs of mounted-apps and sub-mounted-apps
 	for mountedPrefixes, subApp := range subApp.mountFields.appList {
@@ -73,6 +77,10 @@ func (grp *Group) mount(prefix string, subApp *App) Router {
 	groupPath = utils.TrimRight(groupPath, '/')
 	if groupPath == "" {
 		groupPath = "/"
+	}
+	// the routes are registered with a leading slash, so are the keys of the app list
+	if groupPath[0] != '/' {
+		groupPath = "/" + groupPath
 	}
 
 	// Support for configs of mounted-apps and sub-mounted-apps
